@@ -11,6 +11,11 @@ from harness.wire import to_wire, to_py
 BASE = 'tape_recorder_recordings/'
 PREFIXES = ['', 'a', 'ab', 'a/b']
 CATS = ['Op', 'OpB', 'Q']                       # every id the generator ever saves is <one of these>/<YYYYMMDD>/<uid>
+SHADOWED = ['full', 'metadata']                 # key prefixes whose roots lie inside the default prefix's full/ / metadata/ key space (K8)
+LIST_CATS = CATS + SHADOWED                     # categories a fresh reader lists: through the default prefix a neighbour's objects look
+                                                # like recordings of category 'full' / 'metadata'
+K8 = 's3-default-prefix-shadows-full-metadata-prefixes'
+K8_MARK = 'default-prefix shadowing (K8): '
 FOREIGN = ['foreign/x', 'tape_recorder_recordingsX/full/a', 'tape_recorder_recordings', 'zzz',
            'tape_recorder_recordingsX/a/metadata/Op/20210301/u000', 'a/full/Op/20210301/u000', 'full/x']
 EPOCH = datetime.datetime(1970, 1, 1)
@@ -29,6 +34,11 @@ def day_str(t):
 def roots(p):
     r = BASE + (p + '/' if p else '')
     return r, r + 'full/', r + 'metadata/'
+
+
+def shadowed(p):
+    """the root of key prefix `p` lies inside the default prefix's own full/ or metadata/ key space"""
+    return p in SHADOWED or p.startswith('full/') or p.startswith('metadata/')
 
 
 class FakeDT(datetime.datetime):
@@ -69,7 +79,8 @@ class C15(Prop):
             'context-manager exit) on 1-3 cassettes sharing one bucket with foreign objects; all 16 read_only x transient x '
             "prefix ('', a, ab, a/b) combinations enumerated first, then random ones (including two cassettes with the same "
             'prefix); for every save of a sequence the two variants of the sequence in which that save is interrupted after '
-            'its 1st / 2nd bucket mutation; a case is non-trivial when it logged a mutation or refused a write; '
+            'its 1st / 2nd bucket mutation; rarely (~3% of the sequences) a default-prefix cassette next to one with prefix '
+            "'full' / 'metadata' (known finding K8); a case is non-trivial when it logged a mutation or refused a write; "
             'distinct = distinct canonical case')
     TRUSTED = ['correspondence harness harness/props/c15.py + Lean driver (Drive/S3.lean, handler c15.run)',
                'harness/fake_s3.py: the in-memory stand-in for boto3.client / boto3.resource behind the REAL S3BasicFacade '
@@ -83,7 +94,9 @@ class C15(Prop):
                    'MemoryRecordings with JSON-native metadata',
                    'a crash is the loss of the process right after an individual bucket mutation (no torn single put)',
                    'completeness of discoverable recordings is claimed for saves only, not for the clean-up of close()',
-                   'recording ids have the shape category/YYYYMMDD/uid; key prefixes contain no full/ or metadata/ segment']
+                   'recording ids have the shape category/YYYYMMDD/uid',
+                   "neighbour independence is claimed per key prefix: an object written through one key prefix is never deleted "
+                   "or overwritten through another (open known finding K8: default prefix vs prefixes full / metadata)"]
     PARALLEL = 14
 
     # ------------------------------------------------------------------------------------------------------
@@ -97,7 +110,8 @@ class C15(Prop):
         while len(cases) < n:
             first = combos[k] if k < len(combos) else None
             k += 1
-            base = self.rand_seq(rng, first)
+            # rarely: a default-prefix cassette next to one whose prefix is 'full' / 'metadata' (known finding K8)
+            base = self.rand_seq(rng, first, k8=(first is None and rng.random() < 0.03))
             cases.append(base)
             cases.extend(self.crash_variants(base))
             if rng.random() < 0.15:
@@ -110,7 +124,14 @@ class C15(Prop):
         return {'foreign': list(foreign), 'cfgs': [dict(c) for c in cfgs],
                 'daytab': [[d, day_str(d * 1440)] for d in days], 'ops': [dict(o) for o in ops]}
 
-    def rand_cfgs(self, rng, first):
+    def rand_cfgs(self, rng, first, k8=False):
+        if k8:
+            cfgs = [{'p': '', 'ro': rng.random() < 0.3, 'tr': rng.random() < 0.6},
+                    {'p': rng.choice(SHADOWED), 'ro': False, 'tr': rng.random() < 0.3}]
+            if rng.random() < 0.3:
+                cfgs.append({'p': rng.choice(PREFIXES[1:]), 'ro': rng.random() < 0.3, 'tr': rng.random() < 0.5})
+            rng.shuffle(cfgs)
+            return cfgs
         ncass = rng.choice([1, 2, 2, 3, 3])
         cfgs = [dict(first) if first else
                 {'p': rng.choice(PREFIXES), 'ro': rng.random() < 0.3, 'tr': rng.random() < 0.5}]
@@ -125,8 +146,8 @@ class C15(Prop):
                 cfgs.append({'p': rng.choice(free or PREFIXES), 'ro': rng.random() < 0.3, 'tr': rng.random() < 0.5})
         return cfgs
 
-    def rand_seq(self, rng, first=None):
-        cfgs = self.rand_cfgs(rng, first)
+    def rand_seq(self, rng, first=None, k8=False):
+        cfgs = self.rand_cfgs(rng, first, k8)
         foreign = rng.sample(FOREIGN, rng.randint(2, len(FOREIGN)))
         nops = rng.randint(1, 10)
         ops = []
@@ -169,7 +190,7 @@ class C15(Prop):
 
         closers = [i for i, c in enumerate(cfgs) if c['tr'] and not c['ro']]
         final_close = None
-        if len(cfgs) > 1 and rng.random() < 0.35:
+        if len(cfgs) > 1 and rng.random() < (0.7 if k8 else 0.35):
             # neighbours first: one recording under every cassette (refused on the read-only ones), so that a close has
             # something of the others to spare
             nops = min(10, max(nops, len(cfgs) + 2))
@@ -210,7 +231,7 @@ class C15(Prop):
             elif r < 0.68:
                 ops.append({'c': c, 'op': 'getmeta', 'id': some_id(c)})
             elif r < 0.80:
-                ops.append({'c': c, 'op': 'list', 'cat': rng.choice(CATS)})
+                ops.append({'c': c, 'op': 'list', 'cat': rng.choice(LIST_CATS if k8 else CATS)})
             elif r < 0.91:
                 ops.append({'c': c, 'op': 'close'})
             else:
@@ -250,7 +271,7 @@ class C15(Prop):
         from playback.exceptions import NoSuchRecording
         reader = cls(BUCKET, key_prefix=prefix, read_only=True)
         out = []
-        for cat in CATS:
+        for cat in LIST_CATS:
             for rid in list(reader.iter_recording_ids(cat)):
                 try:
                     reader.get_recording(rid)
@@ -290,6 +311,8 @@ class C15(Prop):
             before = dict(st.objects)
             log0 = len(st.log)
             vis_before = self._visible(mod.S3TapeCassette, cfg['p']) if kind in ('save', 'savecrash') else None
+            others = sorted({x['p'] for x in case['cfgs']} - {cfg['p']}) if kind in ('save', 'savecrash') else []
+            vis_others_before = {q: self._visible(mod.S3TapeCassette, q) for q in others}
             try:
                 if kind == 'create':
                     FAKE_UUID.cur = op['uid']
@@ -341,7 +364,9 @@ class C15(Prop):
                     'changed': changed,
                     'touched_outside': [k for k in changed if not (k.startswith(full_root) or k.startswith(meta_root))],
                     'unlogged': [k for k in changed if k not in logged],
-                    'visible_before': vis_before}
+                    'visible_before': vis_before,
+                    'visible_others_before': vis_others_before,
+                    'visible_others': {q: self._visible(mod.S3TapeCassette, q) for q in others}}
             steps.append(step)
         return {'steps': steps}
 
@@ -364,6 +389,7 @@ class C15(Prop):
     # ------------------------------------------------------------------------------------------------------
     def oracle(self, case, impl):
         fails = []
+        owner = {}      # key -> key prefix of the cassette that wrote the object (recordings belong to a key prefix)
         for i, (op, s) in enumerate(zip(case['ops'], impl['steps'])):
             cfg = case['cfgs'][op['c']]
             p, ro, tr = cfg['p'], cfg['ro'], cfg['tr']
@@ -433,15 +459,34 @@ class C15(Prop):
                 say('object %r outside %r and %r was %s' % (k, full_root, meta_root,
                                                              'removed' if k not in after else
                                                              ('created' if k not in before else 'overwritten')))
-            # 5. complete-before-visible at every (intermediate) point of a save
+            # 7. "its own recordings and nothing else": an object written through one key prefix is never deleted or
+            #    overwritten through a different key prefix
+            for m, k in log:
+                if k in owner and owner[k] != p:
+                    mark = K8_MARK if (m == 'delete' and p == '' and kind in ('close', 'exit') and tr and not ro
+                                       and shadowed(owner[k])) else ''
+                    say('%s%s %r, an object of the cassette with key prefix %r' % (mark, m, k, owner[k]))
+                if m == 'put':
+                    owner[k] = p
+                else:
+                    owner.pop(k, None)
+            # 5. complete-before-visible at every (intermediate) point of a save, through every key prefix in the case
             if kind in ('save', 'savecrash'):
-                was = {rid: ok for rid, ok in (s['visible_before'] or [])}
-                for rid, ok in s['visible']:
-                    if not ok and was.get(rid, True):
-                        say('after %s recording %r is discoverable through a fresh read-only cassette with prefix %r but '
-                            'get_recording raises NoSuchRecording (keys: %r)'
-                            % ('the complete save' if kind == 'save' else 'a crash following mutation %d of the save' % op['k'],
-                               rid, p, [k for k in after if k.endswith(rid)]))
+                views = [(p, s['visible_before'] or [], s['visible'])]
+                for q in sorted(s.get('visible_others') or {}):
+                    views.append((q, (s.get('visible_others_before') or {}).get(q) or [], s['visible_others'][q]))
+                for q, vis_before, vis in views:
+                    was = {rid: ok for rid, ok in vis_before}
+                    for rid, ok in vis:
+                        if not ok and was.get(rid, True):
+                            mkey = roots(q)[2] + rid
+                            mark = K8_MARK if (q == '' and shadowed(owner.get(mkey, '')) and
+                                               (rid.startswith('full/') or rid.startswith('metadata/'))) else ''
+                            say('%safter %s recording %r is discoverable through a fresh read-only cassette with prefix %r but '
+                                'get_recording raises NoSuchRecording (keys: %r)'
+                                % (mark, 'the complete save' if kind == 'save'
+                                   else 'a crash following mutation %d of the save' % op['k'],
+                                   rid, q, [k for k in after if k.endswith(rid)]))
             # 6. reads never mutate
             if kind in ('get', 'getmeta', 'list'):
                 if log:
@@ -480,6 +525,17 @@ class C15(Prop):
         return sorted(out)
 
     def known_finding(self, case, failures):
+        """K8 only: a default-prefix cassette shares the bucket with a cassette whose prefix is full / metadata (or starts
+        with full/ / metadata/) AND every failure is one of the two shapes the oracle marks under exactly those conditions
+        (objects of such a neighbour deleted by the transient default-prefix close; a neighbour's object discoverable but
+        not fetchable through the default prefix)"""
+        if not failures:
+            return None
+        ps = [c['p'] for c in case['cfgs']]
+        if '' not in ps or not any(shadowed(q) for q in ps):
+            return None
+        if all(K8_MARK in f for f in failures):
+            return K8
         return None
 
     def shrink(self, case):
